@@ -15,6 +15,7 @@ Copy i uses two letters (p, q); the kinds of classes of a copy:
              specified down to atoms: Aq = q + p Aq + q Aq, Ps = eps + p Ps
   variant K: as F, but X is not verified by brute force: the pack offered for C verifies X by a strategy that itself offers a
              pack (X = p A, A = eps + p A + q A): a chain of verifications with packs
+  variant R: as F with bD = q q X: a product with a repeated child class (T, T, X)
   variant S: C = (p|q)+ = X + swap(X): a union rule with the *same* child class twice, told apart by the child index only
 Root R = g + C1 + ... + Ck  (`g` a one-letter atom). Everything the oracle needs is generated directly from these
 definitions (`words`), independently of the library. The classes duck-type upword.PW for the shared helpers
@@ -64,6 +65,8 @@ def _words(name, n, sig):
         lo = 2 if v == "Y" else 1
         return [p + t for t in _tails(p, q, n - 1)] if n >= lo else []
     if kind == "bD":
+        if v == "R":
+            return [q + q + w for w in _words("X" + k, n - 2, sig)] if n >= 2 else []
         return [q + w for w in _words(("X" if v in ("F", "K") else "D") + k, n - 1, sig)] if n >= 1 else []
     if kind in ("pA", "qA"):
         return [(p if kind == "pA" else q) + w for w in _tails(p, q, n - 1)] if n >= 1 else []
@@ -198,7 +201,8 @@ class GProd(_Table, CartesianProductStrategy):
             _, q = LETTERS[int(c.name[-1])]
             i = str(obj).rindex(q) + 1
             return (W(obj[:i]), W(obj[i:]))
-        return (W(obj[:1]), W(obj[1:]))
+        k = len(children if children is not None else self.decomposition_function(c))
+        return tuple(W(obj[i:i + 1]) for i in range(k - 1)) + (W(obj[k - 1:]),)  # single letters, then the rest
 
 
 class GSym(_Table, DisjointUnionStrategy):
@@ -367,6 +371,8 @@ def inner_pack(sig):
         elif v == "E":
             union["X" + k] = ("D" + k, "E" + k)
             prod["bD" + k] = ("T" + k, "D" + k)
+        elif v == "R":
+            prod["bD" + k] = ("T" + k, "T" + k, "X" + k)
         else:
             prod["bD" + k] = ("T" + k, "X" + k)
     if "K" in sig:
